@@ -448,13 +448,63 @@ type interp struct {
 	multiList     bool // some loop ran over >= 2 items
 	nestedRan     bool // some nested loop emitted at least one item
 	depth3Ran     bool
-	num           numSeen // classes of the numbers that were inserted
+	num           numSeen         // classes of the numbers that were inserted
+	condSeen      map[string]bool // item fields tested inside loops: "<type>:true|false" (and number sub-classes)
+	maxItems      int             // the longest list a loop ran over
+	itemsOut      int             // loop bodies emitted over all renders
 }
 
 // val returns the text of an inserted value and records the class of a number.
 func (ip *interp) val(v Val) string {
 	ip.num.see(v)
 	return v.text()
+}
+
+// truth: the condition an item field stands for. The documents list the types a condition inside a loop may have
+// (bool, string, int, int64, float64) and say that empty and zero values are judged false: a bool is its value, a
+// string is true unless it is empty, a number is true unless it is zero. Everything else (nil, a list, a map) is
+// outside what the documents name; the generator never tests such a field (a replay that does is read as: nil is an
+// empty value, a list or map with entries is not).
+func (ip *interp) truth(v Val) bool {
+	t, cls := false, ""
+	switch v.T {
+	case "b":
+		t, cls = v.B, "bool"
+	case "s":
+		t, cls = v.S != "", "string"
+	case "i", "l":
+		n, err := strconv.ParseInt(v.S, 10, 64)
+		t, cls = err != nil || n != 0, map[string]string{"i": "int", "l": "int64"}[v.T]
+		if n < 0 {
+			cls += ":negative"
+		}
+	case "f":
+		f := v.float()
+		t, cls = f != 0, "float64"
+		switch {
+		case f == 0 && math.Signbit(f):
+			cls += ":-0"
+		case f < 0:
+			cls += ":negative"
+		case f != 0 && math.Abs(f) < 1:
+			cls += ":fraction"
+		}
+	case "m":
+		t, cls = len(v.M) > 0, "other"
+	case "a":
+		t, cls = len(v.L) > 0, "other"
+	default:
+		cls = "other"
+	}
+	if ip.condSeen == nil {
+		ip.condSeen = map[string]bool{}
+	}
+	if i := strings.Index(cls, ":"); i >= 0 {
+		ip.condSeen[cls] = true
+		cls = cls[:i]
+	}
+	ip.condSeen[cls+":"+map[bool]string{true: "true", false: "false"}[t]] = true
+	return t
 }
 
 func (ip *interp) blockBody(name string, def []Node) []Node {
@@ -507,8 +557,8 @@ func (ip *interp) render(ns []Node, fr []frame) string {
 			} else {
 				it := fr[len(fr)-1].item
 				if it.T == "m" {
-					if v, ok := it.M[n.S]; ok && v.T == "b" {
-						cond = v.B
+					if v, ok := it.M[n.S]; ok {
+						cond = ip.truth(v)
 					} else {
 						ip.absentCond = true
 					}
@@ -555,6 +605,10 @@ func (ip *interp) render(ns []Node, fr []frame) string {
 			} else if len(list) >= 2 {
 				ip.multiList = true
 			}
+			if len(list) > ip.maxItems {
+				ip.maxItems = len(list)
+			}
+			ip.itemsOut += len(list)
 			for i, it := range list {
 				if len(fr) >= 1 {
 					ip.nestedRan = true
